@@ -69,6 +69,7 @@
 #include <morfuse/Script/ScriptOpcodes.h>
 #include <morfuse/Script/ScriptVM.h>
 #include <morfuse/Script/ScriptClass.h>
+#include <morfuse/Script/SimpleEntity.h>
 #include <morfuse/Script/ScriptException.h>
 #include <morfuse/Common/StringDictionary.h>
 #include <morfuse/Common/short3.h>
@@ -82,6 +83,9 @@ using namespace mfuse;
 //   c02wo    setter only (read: write-only) c02bads  working getter, setter that throws
 //   c02fail  command that throws           c02failret  value-returning command that throws
 //   c02ok    getter + setter that work
+//   c02maybe getter + setter; the setter throws when the instance was armed with `c02arm = 1`
+//            (stores through a group of hosts fail at a chosen member)
+// It derives from SimpleEntity so that several instances can bear one targetname ($name = a group).
 static EventDef ev_c02_bad_g("c02bad", EV_DEFAULT, nullptr, nullptr, "getter that throws", evType_e::Getter);
 static EventDef ev_c02_ro_g("c02ro", EV_DEFAULT, nullptr, nullptr, "read-only field", evType_e::Getter);
 static EventDef ev_c02_wo_s("c02wo", EV_DEFAULT, "i", "value", "write-only field", evType_e::Setter);
@@ -89,20 +93,31 @@ static EventDef ev_c02_bads_g("c02bads", EV_DEFAULT, nullptr, nullptr, "getter",
 static EventDef ev_c02_bads_s("c02bads", EV_DEFAULT, "i", "value", "setter that throws", evType_e::Setter);
 static EventDef ev_c02_ok_g("c02ok", EV_DEFAULT, nullptr, nullptr, "getter", evType_e::Getter);
 static EventDef ev_c02_ok_s("c02ok", EV_DEFAULT, "i", "value", "setter", evType_e::Setter);
+static EventDef ev_c02_maybe_g("c02maybe", EV_DEFAULT, nullptr, nullptr, "getter", evType_e::Getter);
+static EventDef ev_c02_maybe_s("c02maybe", EV_DEFAULT, "i", "value", "setter that throws when armed", evType_e::Setter);
+static EventDef ev_c02_arm_g("c02arm", EV_DEFAULT, nullptr, nullptr, "getter", evType_e::Getter);
+static EventDef ev_c02_arm_s("c02arm", EV_DEFAULT, "i", "value", "arms c02maybe", evType_e::Setter);
 static EventDef ev_c02_fail("c02fail", EV_DEFAULT, nullptr, nullptr, "command that throws", evType_e::Normal);
 static EventDef ev_c02_failret("c02failret", EV_DEFAULT, nullptr, nullptr, "returning command that throws", evType_e::Return);
 
-class C02Host : public Listener
+class C02Host : public SimpleEntity
 {
     MFUS_CLASS_PROTOTYPE(C02Host);
 public:
+    bool armed = false;
     void Throw(Event&) { throw ScriptException("c02 host failure"); }
     void Get(Event& ev) { ev.AddInteger(7); }
     void Set(Event&) {}
+    void Arm(Event& ev) { armed = ev.GetInteger(1) != 0; }
+    void Maybe(Event&) { if (armed) throw ScriptException("c02 armed member"); }
 };
 
-MFUS_CLASS_DECLARATION(Listener, C02Host, nullptr)
+MFUS_CLASS_DECLARATION(SimpleEntity, C02Host, nullptr)
 {
+    { &ev_c02_maybe_g, &C02Host::Get },
+    { &ev_c02_maybe_s, &C02Host::Maybe },
+    { &ev_c02_arm_g, &C02Host::Get },
+    { &ev_c02_arm_s, &C02Host::Arm },
     { &ev_c02_bad_g, &C02Host::Throw },
     { &ev_c02_ro_g, &C02Host::Get },
     { &ev_c02_wo_s, &C02Host::Set },
@@ -242,6 +257,7 @@ int main(int argc, char** argv)
     mfuse::verif::vmEndHook = &endHook;
     return vh::caseLoop([frames](const std::string& id, const std::string& header, const std::vector<std::string>& ops) {
         const bool norun = header.find("norun") != std::string::npos;
+        const bool show = header.find("show") != std::string::npos;   // also print what the script printed and the warnings
         std::string src;
         for (const std::string& l : ops) if (!l.empty() && l[0] == '|') { src += l.substr(1); src += "\n"; }
         std::printf("case %s\n", id.c_str());
@@ -294,9 +310,16 @@ int main(int argc, char** argv)
                     if (abortText.empty()) abortText = typeid(ex).name();
                 } catch (...) { abortText = "unknown"; }
                 try { e.director().Reset(); } catch (...) {}
+                const std::vector<std::string> printed = e.takeOutput();
                 std::printf("m run steps=%zu warnings=%zu ends=%zu abort=%s foreign=%ld sizemismatch=%ld out=%zu\n", g_nsteps,
                             countWarnings(e.io.warn.str()), g_ends.size(), abortText.c_str(), g_foreignProgram, g_sizeMismatch,
-                            e.takeOutput().size());
+                            printed.size());
+                if (show) {
+                    for (const std::string& l : printed) std::printf("m out %s\n", l.c_str());
+                    std::istringstream ws(e.io.warn.str());
+                    std::string wl;
+                    while (std::getline(ws, wl)) if (wl.find("Script Warning") != std::string::npos) std::printf("m warn %s\n", wl.c_str());
+                }
                 std::string t = "m t";
                 for (const Step& s : g_steps) t += " " + std::to_string(s.off) + ":" + std::to_string(s.idx) + ":" + std::to_string(s.marked);
                 std::printf("%s\n", t.c_str());
